@@ -293,9 +293,10 @@ def __slope_at_data_points(func: Callable, xvalues: np.ndarray) -> np.ndarray:
 def __combine_fit_func_and_fit_params(func: Callable, params) -> Callable:
     """wraps a function with params to a function of x"""
 
-    # a numpy integer is evaluated as a float (x ** 2 inside a model wraps around silently)
+    # a numpy number is evaluated as a float: x ** 2 inside a model wraps around silently for a
+    # numpy integer, and numpy would carry out every operation with a float32 in single precision
     result_func = utils.vectorize(
-        lambda x: func(float(x) if isinstance(x, np.integer) else x, *params))
+        lambda x: func(float(x) if isinstance(x, (np.integer, np.floating)) else x, *params))
 
     # Change signature of the function to match the actual signature
     sig = inspect.signature(result_func)
